@@ -82,6 +82,9 @@ def parseScript (toks : List String) : (Nat × Nat) × List DOp :=
     | ["daofw", a] => (acc.1, acc.2 ++ [.newAofWriter a.toNat!])
     | ["daofa", h] => (acc.1, acc.2 ++ [.aofAppend ((Hex.decode h).getD [])])
     | ["daofc"] => (acc.1, acc.2 ++ [.aofClose])
+    -- short write (only the first k bytes reach the file, below the rotation
+    -- limit), then the writer ends
+    | ["daofx", k, h] => (acc.1, acc.2 ++ [.aofAppend (((Hex.decode h).getD []).take k.toNat!), .aofClose])
     | ["dgc"] => (acc.1, acc.2 ++ [.gc])
     | _ => acc) ((0, 0), [])
 
@@ -123,7 +126,9 @@ def reopenLines (verify : Bool) (probes : List Nat) (fs : FS) : List String :=
       | some rd =>
         if o ≤ rd.left then
           if verify && !rdbFooterOk rd.data then some s!"read {o} err corrupt"
-          else some s!"read {o} rdb {rd.left} {rd.size}"
+          else
+            let got := rd.data.take rd.size
+            some s!"read {o} rdb {rd.left} {rd.size} got {got.length} crc {crc64 got}"
         else some s!"read {o} err notexist"
       | none => some s!"read {o} err notexist")
   head :: reads
@@ -131,11 +136,31 @@ def reopenLines (verify : Bool) (probes : List Nat) (fs : FS) : List String :=
 def parseNats (s : String) : List Nat :=
   if s == "-" || s.isEmpty then [] else (s.splitOn ",").filterMap String.toNat?
 
-def handle : List String → Option (List String)
+def handle0 : List String → Option (List String)
   | "c8w" :: _salt :: script =>
     let ((l, m), ops) := parseScript script
     some ((scriptOps (Disk.init l m) ops).map fsOpStr ++ ["end"])
   | ["c8r", v, ps, img] => some (reopenLines (v == "1") (parseNats ps) (parseImage img))
   | _ => none
+
+/-- stateful loop: every output line is prefixed with `#<op index> ` so that the
+    runner can name the op of the first difference -/
+partial def loop (i : Nat) (hin hout : IO.FS.Stream) : IO Unit := do
+  let line ← hin.getLine
+  if line.isEmpty then return ()
+  let toks := (line.trimAscii.toString.splitOn " ").filter (· ≠ "")
+  if toks.isEmpty then loop i hin hout else
+  let outs := match handle0 toks with
+    | some o => o
+    | none => ["bad-op"]
+  for o in outs do
+    hout.putStrLn s!"#{i} {o}"
+  loop (i + 1) hin hout
+
+def main : IO Unit := do
+  let hin ← IO.getStdin
+  let hout ← IO.getStdout
+  loop 0 hin hout
+  hout.flush
 
 end GunYu.Drive.C08
